@@ -135,10 +135,24 @@ func upCommands(r row, j int, log string) []string {
 	return cmds
 }
 
+// downCommands: the shut-down of a context, in some rows with a failing command before or after the
+// one that leaves the token (a failing shut-down is logged; every used context is still shut down,
+// every command of it attempted)
+func downCommands(r row, j int, log string) []string {
+	tokc := echo("down."+r.Ctxs[j], log)
+	switch (j + len(r.Runs)) % 3 {
+	case 1:
+		return []string{tokc + "; exit 1"}
+	case 2:
+		return []string{"exit 1", tokc}
+	}
+	return []string{tokc}
+}
+
 func buildContexts(r row, log string) map[string]*runner.ExecutionContext {
 	m := map[string]*runner.ExecutionContext{}
 	for j, c := range r.Ctxs {
-		m[c] = runner.NewExecutionContext(nil, "", variables.NewVariables(), upCommands(r, j, log), []string{echo("down."+c, log)},
+		m[c] = runner.NewExecutionContext(nil, "", variables.NewVariables(), upCommands(r, j, log), downCommands(r, j, log),
 			[]string{echo("cb."+c, log)}, []string{echo("ca."+c, log)})
 	}
 	return m
@@ -374,7 +388,11 @@ func yamlFor(r row, log string) string {
 		for _, u := range upCommands(r, j, log) {
 			ups = append(ups, fmt.Sprintf("%q", u))
 		}
-		fmt.Fprintf(&b, "  %s:\n    up: [%s]\n    down: [%q]\n    before: [%q]\n    after: [%q]\n", c, strings.Join(ups, ", "), echo("down."+c, log), echo("cb."+c, log), echo("ca."+c, log))
+		var downs []string
+		for _, u := range downCommands(r, j, log) {
+			downs = append(downs, fmt.Sprintf("%q", u))
+		}
+		fmt.Fprintf(&b, "  %s:\n    up: [%s]\n    down: [%s]\n    before: [%q]\n    after: [%q]\n", c, strings.Join(ups, ", "), strings.Join(downs, ", "), echo("cb."+c, log), echo("ca."+c, log))
 	}
 	b.WriteString("  unused:\n")
 	fmt.Fprintf(&b, "    up: [%q]\n    down: [%q]\n", echo("up.unused", log), echo("down.unused", log))
